@@ -10,6 +10,11 @@ model run: the same configuration and the same per-suspension decisions (ok / ca
            the real trace) through the control-flow model EasyNet/Model/ClosePaths.lean (endriver `c14`)
 oracle   : from the real lines only — wrapped transport(s) closed once the operation is over, is_closing() of the outer
            object true, a second close ends normally without virtual time passing.
+path teardown: the server-side TEARDOWN of an accepted connection (vlib/c14_teardown.py): a real AsyncStreamServer over an
+           in-memory listener / transport on a plain asyncio loop; the client task ends for every reason (peer EOF / reset /
+           receive error, handler raises / returns / closes the transport itself, serve task cancelled) x the handler
+           generator's clean-up returns / suspends / raises / is parked and cancelled / swallows the cancellation: the accepted
+           transport is closed when the client task is over.  Oracle only.
 path aio : the same close matrix on every transport / listener the REAL asyncio backend creates, on real loopback sockets
            (vlib/c14_aio.py): OS socket released, port no longer held, is_closing(), second / third / concurrent closes
            return normally, serve() ended.  Oracle only.
@@ -24,6 +29,7 @@ from vlib import core
 from vlib import c14_run as cr
 from vlib import c14_aio as ca
 from vlib import c14_listener as cl
+from vlib import c14_teardown as ct
 
 ID = "C14"
 CLAIMED = True
@@ -72,7 +78,11 @@ RULE = (
     "sockets of the asyncio backend): subject (datagram / stream transport, TCP / UDP listener, bare or under endpoint, client, "
     "TLS transport, TLS listener, low-level server; idle / receive parked / serving / connection in progress) x close matrix "
     "(task cancelled after task step k = 0..N or after k = 0..6 loop turns, cancel scope, aclose_forcefully, move_on_after(0), "
-    "timeout(0), 2-3 concurrent closers with one disturbed) followed by a second and a third close"
+    "timeout(0), 2-3 concurrent closers with one disturbed) followed by a second and a third close | path teardown "
+    "(AsyncStreamServer client task over an in-memory listener/transport): end reason (peer EOF / reset / receive error / "
+    "handler raises / returns / closes the transport then yields / serve task cancelled) x handler clean-up (returns / suspends "
+    "k turns / raises / parked and cancelled after k turns / swallows the cancellation) exhaustively for k = 0, 1, plus random "
+    "k 0..3 x requests served 0..2 x task.cancel() / cancel scope x buffered protocol x close steps / close error of the transport"
 )
 
 _aux: dict[str, Any] = {}
@@ -81,6 +91,8 @@ _aux: dict[str, Any] = {}
 def run_real(case: dict) -> list[str]:
     if case["path"] == "lsn":
         return cl.run_case(case)[0]
+    if case["path"] == "teardown":
+        return ct.run_case(case)[0]
     lines, aux = (ca.run_case if case["path"] == "aio" else cr.run_case)(case)
     _aux[core.case_digest(case)] = aux
     return lines
@@ -91,6 +103,8 @@ def _field(real: list[str], key: str) -> str:
 
 
 def oracle(case: dict, real: list[str]) -> str | None:
+    if case["path"] == "teardown":
+        return ct.oracle(case, real)
     if case["path"] == "lsn":
         return cl.oracle(case, real)
     if case["path"] == "aio":
@@ -159,6 +173,8 @@ def _oracle_connect(case: dict, real: list[str], outcome: str) -> str | None:
 
 
 def nontrivial(case: dict, real: list[str]) -> str | None:
+    if case["path"] == "teardown":
+        return ct.nontrivial(case, real)
     if case["path"] == "lsn":
         return cl.nontrivial(case, real)
     if case["path"] == "aio":
@@ -192,6 +208,9 @@ def nontrivial(case: dict, real: list[str]) -> str | None:
 
 
 def shrink(case: dict):
+    if case["path"] == "teardown":
+        yield from ct.shrink(case)
+        return
     if case["path"] == "lsn":
         yield from cl.shrink(case)
         return
@@ -220,6 +239,8 @@ def shrink(case: dict):
 
 
 def known_key(case: dict, real: list[str], why: str) -> str:
+    if case["path"] == "teardown":
+        return ct.known_key(case, real, why)
     if case["path"] == "lsn":
         return cl.known_key(case, real, why)
     if case["path"] == "aio":
@@ -278,6 +299,8 @@ def decisions(case: dict, real: list[str], aux: dict) -> list[str] | None:
 
 
 def model_input(case: dict, real: list[str]):
+    if case["path"] == "teardown":
+        return None      # oracle only
     if case["path"] == "lsn":
         return cl.model_input(case, real)
     aux = _aux.get(core.case_digest(case))
@@ -448,6 +471,11 @@ def generate(rng, tier: str, boost: int):
     lrng = core.sub_rng(rng.getrandbits(32), "c14-lsn")
     for _ in range((400 if tier == "quick" else 6000) * boost):
         yield cl.gen_case(lrng)
+    # the server-side teardown of an accepted connection: the whole end-reason x clean-up grid, then random parameters
+    trng = core.sub_rng(rng.getrandbits(32), "c14-teardown")
+    yield from ct.grid()
+    for _ in range((150 if tier == "quick" else 3000) * boost):
+        yield ct.gen_case(trng)
     cfgs = configurations(tier) + [("aio", params) for params in ca.configurations(tier)]
     rng.shuffle(cfgs)            # (the set is the same for every seed; only the order depends on it)
     for path, params in cfgs:
@@ -469,5 +497,6 @@ def generate(rng, tier: str, boost: int):
 def extra_coverage(stats) -> dict:
     return {"paths": "stapled, endpoint, tls aclose, tls wrap, tcpclient and lsn (the TCP listener machine) are compared with the Lean model; srvclient "
                      "(server-side client inside AsyncTCPNetworkServer), sockadapter, tcpconnect and aio (real sockets of the "
-                     "asyncio backend) run against the oracle only",
+                     "asyncio backend) and teardown (AsyncStreamServer client task: end reason x handler clean-up, in-memory listener) "
+                     "run against the oracle only",
             "exhaustive_over": "cancellation after every task step 1..N of every listed configuration"}
